@@ -14,27 +14,15 @@ import (
 
 type propFunc func(r *Run, verifDir string)
 
-var props = map[string]propFunc{
-	"C01": runC01,
-	"C02": runC02,
-	"C03": runC03,
-	"C04": runC04,
-	"C18": runC18,
-	"C19": runC19,
-	"C20": runC20,
-	"C05": runC05,
-	"C06": runC06,
-	"C07": runC07,
-	"C08": runC08,
-	"C09": runC09,
-	"C15": runC15,
-	"C10": runC10,
-	"C11": runC11,
-	"C12": runC12,
-	"C13": runC13,
-	"C14": runC14,
-	"C16": runC16,
-	"C17": runC17,
+var props map[string]propFunc
+
+func init() {
+	props = map[string]propFunc{
+		"C01": runC01, "C02": runC02, "C03": runC03, "C04": runC04, "C05": runC05,
+		"C06": runC06, "C07": runC07, "C08": runC08, "C09": runC09, "C10": runC10,
+		"C11": runC11, "C12": runC12, "C13": runC13, "C14": runC14, "C15": runC15,
+		"C16": runC16, "C17": runC17, "C18": runC18, "C19": runC19, "C20": runC20,
+	}
 }
 
 func main() {
@@ -176,6 +164,7 @@ func main() {
 	for _, n := range normalizeNotes {
 		r.Infof("helper normalisation: %s", n)
 	}
+	verifDirGlobal = *verif
 	f(r, *verif)
 	if *benign != "" {
 		if b, err := os.ReadFile(*benign); err == nil {
